@@ -25,6 +25,12 @@ PROPS = {
         decided_by_proof="WAL framing: intact replay, truncation at every byte = exact prefix of complete frames, crash at every write boundary, single-byte damage detected modulo an explicit checksum accident, datapoint block codec round trip",
         partial="RecoverWALData's file discovery/ordering and re-flush, metric-name and metrics-meta WALs: correspondence/E2E only",
     ),
+    "C18": dict(
+        suites=[("csf", 4000, 60000), ("gorilladec", 1000, 20000)],
+        trusted_base=["CRC-32 is a parameter of the model (any function)"],
+        decided_by_proof="checksummed chunk reader: intact multi-chunk reads, every single-byte change of a chunk (header or data) and every truncation is detected modulo an explicit checksum accident; guard: not the 4 magic bytes at file offset 0 (known finding, counterexample theorem)",
+        partial="length-prefixed decoders (ReadDictEnc, block summaries, segstats, pqmr, TSO/TSG), per-segment error collection and process survival: correspondence / end-to-end only",
+    ),
 }
 
 NOT_YET = {}
